@@ -668,6 +668,24 @@ def c06_mut(ctx):
                 out.fail(key, '%s calls `%s` on the collection target: existing contents may be disturbed' % (key_of(b), mth), b.where(c['line']))
             else:
                 out.inst(key, True, mth, sample={'fn': key_of(b), 'call': mth})
+    # a plain assignment through the target reference (`*output = new_contents`) replaces what was there
+    for hn in sorted(hosts):
+        b = F.bodies[hn]
+        mut_targets = [l for l in b.arg_locals() if b.locals[l]['ty'].startswith('&mut ')]
+        if not mut_targets:
+            continue
+        r = ctx.run(b.name)
+        names = {('param', b.local_name(l) or '_%d' % l) for l in mut_targets}
+        for (sbb, si), st in r.stores.items():
+            ptr = st['ptr']
+            hops = 0
+            while ptr is not None and ptr[0] in ('ref', 'mut') and hops < 6:
+                ptr = ptr[1] if isinstance(ptr[1], tuple) else None
+                hops += 1
+            if ptr in names:
+                key = 'C06-MUT/%s/assign' % key_of(b)
+                out.inst(key, False, 'store through the target reference')
+                out.fail(key, '%s assigns a new value through the `&mut` collection target (%s = ..): the previous contents are replaced, not extended' % (key_of(b), t_str(ptr)), b.where(st.get('line')))
     out.floor('target_calls', n, 5 if not ctx.fixture else 0)
     return out
 
